@@ -8,7 +8,9 @@
     entry iff it is registered, unregister removes exactly the named entries.
   * Part B: lockset soundness for `sync.RWMutex` traces of any length and any number of threads.
   * Part C: the regenerated access table (`Mcp.Gen.registryAccesses`): every access is guarded; the pre-repair
-    records of finding D25 (a literal table) are rejected, with the two unguarded sites named exactly.
+    records of finding D25 (a literal table) are rejected, with the two unguarded sites named exactly; the
+    regenerated table of calls through function values (`Mcp.Gen.registryCallbackCalls`): no user callback is
+    invoked while a registry lock is (possibly) held.
 -/
 import Mcp.Model.Registry
 import Mcp.Gen.RegistryLocks
@@ -977,6 +979,30 @@ theorem C12_table_covers :
   have h1 : Mcp.Gen.registryFields = expectedFields := by decide +kernel
   have h2 : (expectedFields.all fun f => covered Mcp.Gen.registryAccesses f) = true := by decide +kernel
   exact ⟨h1, fun f hf => List.all_eq_true.1 h2 f hf⟩
+
+/-- **No user callback is invoked while a registry lock is held.** Over the regenerated table of every call through
+    a function value inside a function that takes a registry lock (may-analysis: a lock held on SOME path counts):
+    notification, tool, prompt and resource handlers are called after the entry was copied out and the lock released.
+    Hence a handler may itself register / unregister — the RWMutex is not reentrant, `Lock` under one's own `RLock`
+    never returns and then blocks every later reader too — and a slow handler blocks nobody. -/
+theorem C12_callbacks_outside_locks : ∀ c ∈ Mcp.Gen.registryCallbackCalls, cbOutsideLocks c = true := by
+  have h : (Mcp.Gen.registryCallbackCalls.all fun c => cbOutsideLocks c) = true := by decide +kernel
+  exact fun c hc => List.all_eq_true.1 h c hc
+
+/-- The callback table is not vacuous: the three notification dispatchers and the tool / prompt / resource request
+    paths are in it, each calling a value of the handler type. -/
+theorem C12_callback_sites_present :
+    ∀ s ∈ expectedCallbackSites, (Mcp.Gen.registryCallbackCalls.any fun c => c.fn == s.1 && c.calleeType == s.2) = true := by
+  have h : (expectedCallbackSites.all fun s => Mcp.Gen.registryCallbackCalls.any fun c => c.fn == s.1 && c.calleeType == s.2) = true := by
+    decide +kernel
+  exact fun s hs => List.all_eq_true.1 h s hs
+
+/-- The bad region: the records of a dispatcher that calls the handler under `RLock(); defer RUnlock()` are rejected,
+    and so is a function whose control flow the extractor could not follow. -/
+theorem C12_callback_under_lock_rejected :
+    (c125Table.all fun c => cbOutsideLocks c) = false ∧
+    cbOutsideLocks ⟨t!"Server.handleServerNotification", t!"handler", t!"ServerNotificationHandler", .w, true⟩ = false ∧
+    cbOutsideLocks ⟨t!"Server.handleServerNotification", t!"handler", t!"ServerNotificationHandler", .none, false⟩ = false := by decide
 
 /-! ## non-vacuity -/
 
